@@ -5,7 +5,7 @@ CONSTANTS
   Kind = "pais"
   Atoms <- AtomsListN
   Prefix <- PfxNone
-  MaxLen = 8
+  MaxLen = 9
   Cfgs <- CfgsPAIs
   Junk = 34
   EmitOn = TRUE
